@@ -84,6 +84,15 @@ func init() {
 			c18OaCase(c, sc)
 			return
 		}
+		if len(a) >= 1 && a[0] == "cls" {
+			sc, err := c18ClsParse(a[1:])
+			if err != nil {
+				fmt.Fprintln(os.Stderr, "C18 replay:", err)
+				return
+			}
+			c18ClsCase(c, sc)
+			return
+		}
 		if len(a) >= 1 && a[0] == "hist" {
 			h, err := c18HistParse(a[1:])
 			if err != nil {
@@ -1269,6 +1278,10 @@ func runC18(c *ctx) {
 		runC18OAuth(c)
 		return
 	}
+	if os.Getenv("C18_ONLY") == "cls" { // debugging aid: the class parameters mode alone
+		runC18Cls(c)
+		return
+	}
 	// ---- corpus: minimised findings first
 	corpus := []string{
 		// fixed 4d834ab: buildBackendOAuth cleared the deny that a malformed auth-url armed
@@ -1425,4 +1438,7 @@ func runC18(c *ctx) {
 
 	// ---- oauth lookup mode: literal paths around the uri prefix, two namespaces (c18oauth.go)
 	runC18OAuth(c)
+
+	// ---- class parameters mode: auth declared through IngressClass spec.parameters, shared backends (c18cls.go)
+	runC18Cls(c)
 }
